@@ -15,7 +15,7 @@ pub const DEF: PropDef = PropDef {
     run,
     replay,
     level: "exploration",
-    rule: "bounded-exhaustive (suite - all three ciphers, four hashes, 25519 and P-256 - and key material rotate with the case): for every pattern (38 base; thorough: plus a psk variant each) and both roles, ALL sequences of handshake-phase calls over {write with ample buffer, write with empty buffer, read genuine next message (from a shadow peer), read stale (previous) message, read 10 bytes of garbage} up to depth #messages+1 (thorough: +2); at EVERY node of that tree both conversions (stateful, stateless) and, when they succeed, all length-2 sequences over {transport write, transport read genuine, transport read garbage}; plus random longer sequences. Ephemerals come from the resolver's random source, which yields OTHER bytes while a call the model expects to fail is running than during valid calls (an out-of-phase call that re-draws the live ephemeral then breaks the next genuine message). Model: (position, role). Expected per call: success exactly when the model allows; otherwise State(NotTurnToWrite|NotTurnToRead) before completion, State(HandshakeAlreadyFinished|NotTurnTo..) after it, State(HandshakeNotFinished) for early conversion, State(OneWay) for the forbidden transport direction; after every call is_handshake_finished()==(position==#messages), is_initiator() constant, and while unfinished is_my_turn()==(initiator XOR position odd); a failed call leaves the indicators unchanged. Non-trivial = the sequence contains at least one out-of-phase call; distinct by (pattern, role, sequence)",
+    rule: "bounded-exhaustive (suite - all three ciphers, four hashes, 25519 and P-256 - and key material rotate with the case): for every pattern (38 base; thorough: plus a psk variant each; plus, one level less deep and with a short continuation, every pattern with a psk modifier at EVERY valid position) and both roles, ALL sequences of handshake-phase calls over {write with ample buffer, write with empty buffer, read genuine next message (from a shadow peer), read stale (previous) message, read 10 bytes of garbage} up to depth #messages+1 (thorough: +2); at EVERY node of that tree both conversions (stateful, stateless) and, when they succeed, all length-2 sequences over {transport write, transport read genuine, transport read garbage}; plus random longer sequences. Ephemerals come from the resolver's random source, which yields OTHER bytes while a call the model expects to fail is running than during valid calls (an out-of-phase call that re-draws the live ephemeral then breaks the next genuine message). Model: (position, role). Expected per call: success exactly when the model allows; otherwise State(NotTurnToWrite|NotTurnToRead) before completion, State(HandshakeAlreadyFinished|NotTurnTo..) after it, State(HandshakeNotFinished) for early conversion, State(OneWay) for the forbidden transport direction; after every call is_handshake_finished()==(position==#messages), is_initiator() constant, and while unfinished is_my_turn()==(initiator XOR position odd); a failed call leaves the indicators unchanged. Non-trivial = the sequence contains at least one out-of-phase call; distinct by (pattern, role, sequence)",
     technique: "bounded-exhaustive model-based testing of call sequences (every node of the call tree to the depth bound) + proptest random sequences",
     assumptions: &["where an out-of-phase call also has a malformed argument (empty buffer), either the state error or the input error is accepted: the statement fixes no precedence"],
     panic_is_violation: false,
@@ -373,6 +373,23 @@ pub fn run(ctx: &Ctx) {
     };
     let mut cases: Vec<Case> = Vec::new();
     let mut nodes_total = 0usize;
+    // every pattern with a psk modifier at EVERY valid position (a psk token changes which key is
+    // live between the messages, i.e. what a stray call could disturb): all call sequences up to
+    // depth #messages (quick) / #messages+1, with a short continuation instead of the full set
+    for p in &pats {
+        let nm = p.msgs.len();
+        for k in 0..=nm as u8 {
+            for role in [true, false] {
+                let nodes = n_seqs_upto(nm + extra - 1, 5);
+                for node in 0..nodes {
+                    let hs_ops = nth_seq(node, 5);
+                    let finished = model_pos(nm, role, &hs_ops) == nm;
+                    let conv = if finished { Some(node % 2 == 0) } else { None };
+                    cases.push(Case { pattern: p.name.clone(), psks: vec![k], initiator: role, hs_ops, conv, t_ops: if finished { vec![T_WRITE, T_READ] } else { vec![] }, hcase: None });
+                }
+            }
+        }
+    }
     for (name, psks) in &variants {
         let nm = rn::pattern(name).unwrap().msgs.len();
         for role in [true, false] {
